@@ -34,7 +34,10 @@ VDoc == << [k |-> "root", p |-> 0, sp |-> <<>>, lo |-> <<>>, v |-> <<>>],
            El(2, <<"m">>), Tx(20, <<"1">>), El(20, <<"k">>), Tx(22, <<"2">>),     \* 20..23 m = "12" (nested text)
            El(2, <<"x">>), Tx(24, <<"1", "e", "2">>), El(2, <<"x">>), Tx(26, <<"+", "5">>),   \* 24..27 x = "1e2", "+5": not XPath numerals
            El(2, <<"y">>), Tx(28, <<"nbsp", "7">>), El(2, <<"y">>), Tx(30, <<"3">>),          \* 28..31 y = NBSP "7" (not XML white space), "3"
-           El(2, <<"w">>), Tx(32, <<"I","n","f","i","n","i","t","y">>), El(2, <<"w">>), Tx(34, <<"nl", "4", "tab">>) >>  \* 32..35 w = "Infinity", "\n4\t"
+           El(2, <<"w">>), Tx(32, <<"I","n","f","i","n","i","t","y">>), El(2, <<"w">>), Tx(34, <<"nl", "4", "tab">>),  \* 32..35 w = "Infinity", "\n4\t"
+           \* numerals of more than 400 digits: they convert to +-Infinity (a sum can reach an infinity and must still go on adding)
+           El(2, <<"h">>), Tx(36, <<"1", "Z400">>), El(2, <<"h">>), Tx(38, <<"-", "9", "Z400">>),   \* 36..39 h = 10^400, -9*10^400
+           El(2, <<"g">>), Tx(40, <<"2", "Z400">>), El(2, <<"g">>), Tx(42, <<"a">>), El(2, <<"g">>), Tx(44, <<"5">>) >>   \* 40..45 g = 2*10^400, "a", "5"
 ASSUME WellFormed(VDoc)
 Named(nm) == Abs(<<DoS, Step("child", T_name("", nm))>>)
 
@@ -74,7 +77,7 @@ NumOp(x) == [val |-> NumV(x),
 Nums == << Nan, Inf(1), Inf(-1), Zero(1), Zero(-1), NInt(1), NInt(-1), NInt(2), NInt(-2), NInt(3), NInt(10), NInt(9), NInt(7), NInt(-7),
            R(1, 2), R(-1, 2), R(3, 2), R(-3, 2), R(5, 2), R(-5, 2), R(7, 2), R(11, 2), R(-11, 2), R(1, 4), R(-1, 4), R(3, 4), R(-3, 4),
            R(1, 8), R(9, 8), NInt(100), NInt(-100), R(1, 1024), NInt(4000),
-           Pow2(1, 53), Pow2(1, 63), Pow2(-1, 63), Pow2(1, 64), Pow2(1, 100), Pow2(1, 1023), Pow2(1, -30), Pow2(-1, -1074),
+           Pow2(1, 53), Pow2(1, 63), Pow2(-1, 63), Pow2(1, 64), Pow2(-1, 64), Pow2(-1, 100), Pow2(-1, 1023), Pow2(1, 100), Pow2(1, 1023), Pow2(1, -30), Pow2(-1, -1074),
            NamedNum("halfpred"), NamedNum("-halfpred"), NamedNum("odd52"), NamedNum("-odd52") >>
 NumOps == [i \in 1..Len(Nums) |-> NumOp(Nums[i])]
 StrOp(s) == [val |-> StrV(s), e |-> Lit(s)]
@@ -87,7 +90,8 @@ NsOps == << NsOp(<<>>, Named(<<"q">>)), NsOp(<<3, 5>>, Named(<<"a">>)), NsOp(<<7
             NsOp(<<11>>, Named(<<"e">>)), NsOp(<<12, 14>>, Named(<<"n">>)), NsOp(<<16>>, Named(<<"t">>)), NsOp(<<18>>, Named(<<"z">>)),
             NsOp(<<3, 5, 9>>, Bin("union", Named(<<"a">>), Named(<<"c">>))), NsOp(<<20>>, Named(<<"m">>)),
             NsOp(<<5, 3>>, NoE),     \* a node-set handed over in reverse document order
-            NsOp(<<24, 26>>, Named(<<"x">>)), NsOp(<<28, 30>>, Named(<<"y">>)), NsOp(<<32, 34>>, Named(<<"w">>)) >>
+            NsOp(<<24, 26>>, Named(<<"x">>)), NsOp(<<28, 30>>, Named(<<"y">>)), NsOp(<<32, 34>>, Named(<<"w">>)),
+            NsOp(<<36, 38>>, Named(<<"h">>)), NsOp(<<40, 42, 44>>, Named(<<"g">>)), NsOp(<<40, 44>>, NoE) >>
 CmpNums == SubSeq(NumOps, 1, 13) \o <<NumOp(R(3, 2)), NumOp(R(1, 2))>>
 AllOps == NsOps \o CmpNums \o StrOps \o BoolOps
 
